@@ -10,7 +10,10 @@
 (*   encoding is a function       enc1 = enc2, and enc3 = enc1 for the     *)
 (*                                re-encoding of the decoded value         *)
 (*   queries cannot tell          ans0 = ans1                              *)
-(*   a bound that travels in the encoding comes back bit for bit           *)
+(*   a bound that travels in the encoding comes back bit for bit, and so   *)
+(*   does the subregion bound derived from it (bfp0 = bfp1)                *)
+(*   ans0/ans1 include loop and polygon RELATION queries (Contains,        *)
+(*   Intersects against fixed nested / overlapping / disjoint loops)       *)
 (*   both polygon formats         every forced format gives fp0 / ans0     *)
 (*   the format-choice rule       compressed iff 4n + 26(n - s) < 24n      *)
 (*                                (n vertices, s at the most frequent snap *)
@@ -33,9 +36,11 @@ ChoiceRule(e) == IF e.n = 0 \/ 4 * e.n + 26 * (e.n - e.snapped) < 24 * e.n THEN 
 Lossless(e) == e.fp0 = e.fp1
 Deterministic(e) == e.enc1 = e.enc2 /\ e.enc1 = e.enc3
 SameAnswers(e) == e.ans0 = e.ans1
-BoundKept(e) == e.bndenc => /\ Len(e.keys0) = Len(e.keys1)
-                            /\ \A k \in 1..Len(e.keys0) : FEq(e.keys0[k], e.keys1[k])
-BothFormats(e) == \A k \in 1..Len(e.altfp) : e.altfp[k] = e.fp0 /\ e.altans[k] = e.ans0
+BoundKept(e) == /\ e.bndenc => /\ Len(e.keys0) = Len(e.keys1)
+                               /\ \A k \in 1..Len(e.keys0) : FEq(e.keys0[k], e.keys1[k])
+                \* loop bounds (and the subregion bounds derived from them) that travel in the encoding
+                /\ e.bfp0 = e.bfp1
+BothFormats(e) == \A k \in 1..Len(e.altfp) : e.altfp[k] = e.fp0 /\ e.altans[k] = e.ans0 /\ e.altb0[k] = e.altb1[k]
 ChoiceOK(e) == e.type = "Polygon" => e.fmt = ChoiceRule(e) /\ e.snapped <= e.n
 
 Why(e) ==
